@@ -165,6 +165,7 @@ func C05(c *Ctx) {
 	c.c05Iterate()
 	c.c05Warn()
 	c.visibilityRules("C05-7")
+	c.noNilVerdictRule("C05-9")
 
 	r.Rule("C05-8", "the flag that suppresses the `no match` verdict in the default matcher (a captured bool set by the candidate handler) is only ever set to the constant true, and only when both the destination field and the candidate are struct-typed (member-wise descent was attempted)")
 	nf := 0
